@@ -3,6 +3,8 @@ package main
 import (
 	"encoding/json"
 	"fmt"
+
+	"github.com/MinterTeam/minter-go-node/coreV2/types"
 )
 
 func init() { commands["c09"] = runC09 }
@@ -27,6 +29,9 @@ func diffRuns(a, b *HistResult) string {
 		if i < len(a.Emissions) && i < len(b.Emissions) && a.Emissions[i] != b.Emissions[i] {
 			return fmt.Sprintf("emission differs after block index %d: %s vs %s", i, a.Emissions[i], b.Emissions[i])
 		}
+		if i < len(a.Derived) && i < len(b.Derived) && a.Derived[i] != b.Derived[i] {
+			return fmt.Sprintf("in-memory state derived from the persisted data differs after block index %d: {%s} vs {%s}", i, a.Derived[i], b.Derived[i])
+		}
 	}
 	if len(a.Panics) != len(b.Panics) {
 		return fmt.Sprintf("panics differ: %v vs %v", a.Panics, b.Panics)
@@ -50,6 +55,12 @@ func runC09(seed uint64, n int, out, stats string, _ []string) {
 		g := &genOpts{Blocks: 30 + r.Intn(50), TxPerBlock: 5, Absences: true, Evidence: r.Intn(4) == 0, TimeWalk: r.Intn(2) == 0}
 		if r.Intn(3) == 0 {
 			g.Weights = map[string]int{"createpool": 4, "addorder": 10, "remorder": 6, "sellpool": 6, "buypool": 4, "createtoken": 3, "createcoin": 2, "send": 2, "addliq": 2}
+		}
+		if r.Intn(3) == 0 {
+			// a network version voted by all validators and adopted a few blocks into the history
+			spec.Versions = []types.Version{{Name: "v300", Height: 0}, {Name: "v310", Height: 0}, {Name: "v320", Height: 0}}
+			g.NetworkUpdate = true
+			dist["with-network-update"]++
 		}
 		h, _, w := genHistory(s, spec, g)
 		straight, n1 := runRecorded(h, &execOpts{})
@@ -100,7 +111,7 @@ func runC09(seed uint64, n int, out, stats string, _ []string) {
 		}
 	}
 	writeStats(stats, &Stats{Property: "C09", Seed: seed, Cases: n, Ops: restarts, NonTrivial: nontriv,
-		Rule: "seeded history (30-80 blocks, txs incl. pools/orders, absences, evidence, block-time walk) executed on two real nodes: straight, and with the process re-created on the same stores after every block / random blocks (1-3 restarts in a row); compared: every DeliverTx response, validator updates, app hash, emission after each block, final export and versions; non-trivial = at least one restart; distinct by seed",
+		Rule: "seeded history (30-80 blocks, txs incl. pools/orders, absences, evidence, block-time walk) executed on two real nodes: straight, and with the process re-created on the same stores after every block / random blocks (1-3 restarts in a row); compared: every DeliverTx response, validator updates, app hash, emission and the in-memory state derived from persisted data (grace periods, executor) after each block, final export and versions; a third of the histories adopt a network version voted at run time; non-trivial = at least one restart; distinct by seed",
 		Dist: dist, Samples: samples, Monitor: mon, Extra: map[string]interface{}{"restarts": restarts}})
 	NewCases(out).Close()
 }
